@@ -248,6 +248,9 @@ class SimSocket:
         self.send_fail = dict(cfg.get("send_fail", {}))  # {"call": n, "errno": "EPIPE"}
         self.send_calls = 0
         self.send_eagain = set(int(x) for x in cfg.get("send_eagain", ()))
+        self.send_stall = {int(a): int(b) for a, b in dict(cfg.get("send_stall", {})).items()}  # {send call: ticks unwritable}
+        self.unwritable_until = 0
+        self.sent_armed = 0  # bytes accepted since short writes / send faults were armed
         self.timeout_at_connect = None
         self.opts_at_connect = None
         self.k.ev("socket", self.fd, int(family), int(type), int(proto))
@@ -298,6 +301,9 @@ class SimSocket:
 
     def _sim_readable(self):
         return bool(self.rx) or self.rx_eof or self.rx_reset or self.shut_rd
+
+    def _sim_writable(self):
+        return self.k.now >= self.unwritable_until
 
     # -- connect ------------------------------------------------------------------------
     def connect(self, address):
@@ -415,13 +421,34 @@ class SimSocket:
             raise BrokenPipeError(errno.EPIPE, "Broken pipe")
         data = bytes(data)
         self.send_calls += 1
-        if self.send_fail and self.send_calls >= int(self.send_fail.get("call", 1 << 60)):
+        sf = self.send_fail
+        if sf and self.accept_armed and (self.send_calls >= int(sf.get("call", 1 << 60)) or
+                                        ("after_bytes" in sf and self.sent_armed >= int(sf["after_bytes"]))):
             self.net.count("send_error")
-            en = self.send_fail.get("errno", "EPIPE")
+            en = sf.get("errno", "EPIPE")
             k.ev("send_error", self.fd, en)
             if en == "ECONNRESET":
                 raise ConnectionResetError(errno.ECONNRESET, "Connection reset by peer")
+            if en == "TIMEOUT":
+                # a write that times out is a transient condition: the next write goes through again
+                self.send_fail = {}
+                if self.timeout:
+                    k.sleep(to_ticks(self.timeout))
+                raise _rs.timeout("timed out")
             raise BrokenPipeError(errno.EPIPE, "Broken pipe")
+        if self.accept_armed and self.timeout != 0 and self.send_calls in self.send_stall:
+            # the peer's window is closed for a while: 'would block', and the socket stays unwritable for d ticks
+            d = self.send_stall.pop(self.send_calls)
+            self.send_stall.pop(self.send_calls + 1, None)  # the retry after the wait is not refused again
+            self.unwritable_until = k.now + d
+            self.net.count("send_stall")
+            k.ev("send_stall", self.fd, d)
+            raise BlockingIOError(errno.EAGAIN, "Resource temporarily unavailable")
+        if not self._sim_writable() and self.timeout != 0:
+            if self.timeout is None:
+                k.wait(self._sim_writable, None, "send")
+            elif not k.wait(self._sim_writable, to_ticks(self.timeout), "send"):
+                raise _rs.timeout("timed out")
         if self.rx_reset:
             raise BrokenPipeError(errno.EPIPE, "Broken pipe")
         if self.send_eagain and self.accept_armed and self.timeout != 0 and self.send_calls in self.send_eagain:
@@ -439,6 +466,12 @@ class SimSocket:
                 if a and a < n:
                     n = a
                     self.net.count("short_write")
+        if sf and self.accept_armed and "after_bytes" in sf:
+            room = int(sf["after_bytes"]) - self.sent_armed
+            if 0 < room < n:
+                n = room  # the last bytes the transport takes before it fails
+        if self.accept_armed:
+            self.sent_armed += n
         part = data[:n]
         conn = self.conn
         off = len(conn.rx)
@@ -562,7 +595,7 @@ class SimSelector:
             ev = 0
             if key.events & EVENT_READ and s._sim_readable():
                 ev |= EVENT_READ
-            if key.events & EVENT_WRITE:
+            if key.events & EVENT_WRITE and s._sim_writable():
                 ev |= EVENT_WRITE
             if ev:
                 out.append((key, ev))
